@@ -148,7 +148,7 @@ class Prop:
                 stats['odd_metadata_values']['yes'] += 1
             if rng.random() < 0.2:
                 # metadata stored under names of class members / constructor parameters ("entries stored in attrs under such names")
-                for k_ in rng.sample(['dims', 'labels', 'dtype', 'copy', 'values', 'axes', 'shape', '_indexing'], rng.randint(1, 2)):
+                for k_ in rng.sample(['dims', 'labels', 'dtype', 'copy', 'values', 'axes', 'shape', '_indexing', 'cls', 'self'], rng.randint(1, 2)):
                     a['attrs'][k_] = {'dtype': 'float64', 'copy': 'no', '_indexing': 'label'}.get(k_, 'kept')
                 stats['metadata_member_names']['yes'] += 1
             if rng.random() < 0.2:
